@@ -41,6 +41,8 @@ type SchedBus struct {
 	// Unreachable lists addresses that never take a message: Publish to one of them returns only when its context ends
 	// (what wire.LocalBus does for a recipient that never subscribes, and a net.Bus whose dialer cannot reach the peer).
 	Unreachable map[wire.AddrKey]bool
+	// Down lists addresses to which Publish fails at once (connection refused).
+	Down map[wire.AddrKey]bool
 }
 
 // Release lets a publisher that is held inside Publish continue.
@@ -92,7 +94,11 @@ func (b *SchedBus) Publish(ctx context.Context, e *wire.Envelope) error {
 	}
 	b.mu.Lock()
 	unreachable := b.Unreachable[wire.Keys(e2.Recipient)]
+	down := b.Down[wire.Keys(e2.Recipient)]
 	b.mu.Unlock()
+	if down {
+		return fmt.Errorf("publishing to %s: connection refused", b.Names[wire.Keys(e2.Recipient)])
+	}
 	if unreachable {
 		<-ctx.Done()
 		return ctx.Err()
